@@ -76,7 +76,8 @@ Consume(B, P, ty, ar) == IF IsTy(B, P, ty) THEN [ok |-> TRUE, P |-> Advance(B, P
 ParseExpr(B, P, rbp) ==
     IF P.tok.ty \in {"eof", "error"} THEN PErr(P)
     ELSE LET t == P.tok
-             N == Nud(B, Advance(B, P, FALSE), t)
+             \* an operand follows an opening parenthesis or bracket: a slash there starts a regular expression
+             N == Nud(B, Advance(B, P, t.ty \in {"(", "["}), t)
          IN  IF N.err THEN N ELSE LedLoop(B, N.P, N.node, rbp)
 
 LedLoop(B, P, lhs, rbp) ==
@@ -187,7 +188,7 @@ Nud(B, P, t) ==
                                ELSE LET hasD == IsTy(B, U.P, ",")
                                         D == IF hasD THEN ParseExpr(B, Advance(B, U.P, TRUE), 0) ELSE POk(None, U.P)
                                     IN  IF D.err THEN D
-                                        ELSE LET C2 == Consume(B, D.P, "|", TRUE) IN
+                                        ELSE LET C2 == Consume(B, D.P, "|", FALSE) IN     \* a transform is an operand: a slash after it is division
                                              IF C2.ok THEN POk([k |-> "Transform", pat |-> Pt.node, upd |-> U.node, del |-> D.node], C2.P) ELSE PErr(D.P)
       [] OTHER -> PErr(P)
 
@@ -234,7 +235,7 @@ Led(B, P, t, lhs) ==
                           IF ~C1.ok THEN PErr(C.P)
                           ELSE LET Bd == ParseExpr(B, C1.P, 0) IN
                                IF Bd.err THEN Bd
-                               ELSE LET C2 == Consume(B, Bd.P, "}", TRUE) IN
+                               ELSE LET C2 == Consume(B, Bd.P, "}", FALSE) IN      \* and so is a function definition
                                     IF C2.ok THEN POk([k |-> "LambdaCps", params |-> Ps.node, body |-> Bd.node, short |-> (lhs.s = <<955>>)], C2.P) ELSE PErr(Bd.P)
            ELSE LET A == ParseArgs(B, P, <<>>, FALSE) IN
                 IF A.err THEN A
